@@ -30,7 +30,7 @@ EXPLANATION = (
     "dialect differences between python re/numpy and rust."
 )
 LEVEL_RULE = "one obligation per (check, option assignment, backend) / signature / twin effect site"
-FLOORS = {"R1": 40, "R2": 1, "R3": 40, "R4": 10, "R5": 4, "R6": 2, "R7": 1, "R8": 2, "R9": 2}
+FLOORS = {"R1": 40, "R2": 1, "R3": 40, "R4": 10, "R5": 4, "R6": 2, "R7": 1, "R8": 2, "R9": 2, "R10": 1}
 
 PD = "pandera/backends/pandas/builtin_checks.py"
 PL = "pandera/backends/polars/builtin_checks.py"
@@ -581,6 +581,41 @@ def r9_polars_default_is_literal(ctx):
         raise AnalysisError(f"polars backends: expected at least 2 places where a default reaches an expression context, found {n}")
 
 
+def r10_polars_defaults_skip_absent_columns(ctx):
+    """Default filling is a parser stage: it runs before the presence check.  The pandas container skips a column the frame
+    does not have (`col_name not in check_obj.columns`); the polars container has to do the same for non-regex columns,
+    otherwise an absent optional column that declares a default makes `pl.col(name)` raise ColumnNotFoundError out of
+    validate where pandas accepts the table unchanged."""
+    ix = ctx.ix
+    f0 = ix.cls(PLC).lookup("set_default")
+    if f0 is None:
+        raise AnalysisError("polars container set_default missing")
+    ctx.touched(f0)
+    f = expanded(ix, f0)
+    fx = FlowExpander(f.node)
+    calls = [c for c in calls_in(f.node) if callee_last(c) == "set_default" and isinstance(c.func, ast.Attribute)]
+    if not calls:
+        raise AnalysisError("polars container set_default: component call not found")
+    from ..util import enclosing_stmt
+    for c in calls:
+        node = fx.cfg.node_of(enclosing_stmt(c))
+        tests = [fx.expand(t) for t, _ in fx.cfg.guards(node.id)]
+        comp = [cond for n in ast.walk(f.node) if isinstance(n, (ast.ListComp, ast.GeneratorExp)) for g in n.generators for cond in g.ifs]
+        guarded = any(isinstance(x, ast.Compare) and any(isinstance(o, (ast.In, ast.NotIn)) for o in x.ops) and
+                      ("get_lazyframe_column_names" in txt(x) or ".columns" in txt(x.comparators[0]) or "collect_schema" in txt(x))
+                      for t in tests + comp for x in ast.walk(t))
+        if not guarded:
+            # the membership may be tested against a local holding the frame's column names
+            names = {x.id for t in tests + comp for y in ast.walk(t) if isinstance(y, ast.Compare) and any(isinstance(o, (ast.In, ast.NotIn)) for o in y.ops)
+                     for x in ast.walk(y.comparators[0]) if isinstance(x, ast.Name)}
+            ex = Expander(f.node)
+            guarded = any("get_lazyframe_column_names" in txt(d) or "collect_schema" in txt(d) for nm in names for d in ex.defs.get(nm, []))
+        ctx.ob("R10", f0, "polars container: defaults are filled only for columns the frame has", guarded,
+               "absent columns are skipped" if guarded else
+               f"`{txt(c)[:60]}` runs for every column that declares a default, present or not: DataFrameSchema({{'a': Column(int), 'b': Column(int, default=0, "
+               "required=False)}).validate(pl.DataFrame({'a':[1]})) raises polars ColumnNotFoundError; pandas accepts", f0.loc(c))
+
+
 def r1_pyspark(ctx):
     """thorough: pyspark forms where expressible (best effort, never a VIOLATION source on unknown forms)."""
     ix = ctx.ix
@@ -613,6 +648,7 @@ def run(ctx):
     r7_polars_default_fills_nulls(ctx)
     r8_add_missing_columns_keeps_frame(ctx)
     r9_polars_default_is_literal(ctx)
+    r10_polars_defaults_skip_absent_columns(ctx)
     if ctx.tier == "thorough":
         r1_pyspark(ctx)
     ctx.assume("pandas operators/str accessors and polars expression methods have their documented element-wise meaning")
